@@ -56,7 +56,26 @@ Single(e) == /\ Len(e.post) = 1
              /\ SeqSet(e.snode[e.post[1] + 1]) = 0..(e.n - 1)
              /\ SeqSet(e.ordering) = 0..(e.n - 1) /\ Len(e.ordering) = e.n
 
-EventOK(e) == e.ev = "Analysed" /\ (IF e.ncliques = 1 THEN Single(e) ELSE Valid(e))
+\* The analysis as held by a constructed solver with one or several decomposed cones: the augmented problem has one PSD
+\* block per clique of every tree.  Compact transformation: its rows are the other cones' rows plus the blocks' triangles.
+\* Standard transformation: the original rows as an equality block, then the same.
+Tri(k) == (k * (k + 1)) \div 2
+RECURSIVE SumTri(_, _)
+SumTri(b, i) == IF i > Len(b) THEN 0 ELSE Tri(b[i]) + SumTri(b, i + 1)
+RECURSIVE SumAll(_, _)
+SumAll(bs, t) == IF t > Len(bs) THEN 0 ELSE SumTri(bs[t], 1) + SumAll(bs, t + 1)
+RECURSIVE CountAll(_, _)
+CountAll(bs, t) == IF t > Len(bs) THEN 0 ELSE Len(bs[t]) + CountAll(bs, t + 1)
+BuiltOK(e) ==
+  /\ Len(e.nblk) >= 1
+  /\ \A t \in 1..Len(e.nblk) : Len(e.nblk[t]) >= 2                              \* a tree is kept only if it really splits its cone
+  /\ IF e.compact THEN /\ e.m2 = e.other_rows + SumAll(e.nblk, 1)
+                        /\ e.ncones2 = e.other_cones + CountAll(e.nblk, 1)
+     ELSE /\ e.m2 = e.m + e.other_rows + SumAll(e.nblk, 1)
+          /\ e.ncones2 = 1 + e.other_cones + CountAll(e.nblk, 1)
+
+EventOK(e) == IF e.ev = "Built" THEN BuiltOK(e)
+              ELSE e.ev = "Analysed" /\ (IF e.ncliques = 1 THEN Single(e) ELSE Valid(e))
 
 VARIABLES l, bad
 Next == /\ l <= Len(Rec) /\ l' = l + 1
